@@ -25,7 +25,7 @@ def main():
     _, _, info = c12_facts.generate(core.REPO)
     calls, _, _ = c12.function_calls(info)
     req = {"tables": {k: [list(r) for r in v] for k, v in c01.TABLES.items()}, "programs": [], "tables_for": {},
-           "calls": calls, "dispatch_names": []}
+           "calls": calls, "dispatch_names": [], "batch_size": 1}      # the baseline is recorded one call per statement
     with ThreadPoolExecutor(max_workers=7) as ex:
         results = dict(zip(c12.ENGINES, ex.map(lambda e: c12.run_worker(e, req), c12.ENGINES)))
     for e, r in results.items():
